@@ -429,6 +429,8 @@ def _execute_walk(plan, want_logs):
     for tag, vtext in variants:
         vspec = dict(spec, text=vtext, clean=False, rows=None, faults=[{"kind": tag[0]}], dev={})
         verdict = M.refparse(fmt, vtext, spec["style"]["delim"], spec["style"]["comment"])
+        if spec["style"].get("dtype") == "int":
+            verdict = _int_verdict(verdict, vtext, spec["style"])
         out, warns, fname, _ = _load_once(mio, fs, vspec, "w.txt", "stringio", None, stats)
         found, oclass = judge(fmt, verdict, out, warns, fname, vtext, False)
         stats.inc("walk.loads")
